@@ -48,6 +48,20 @@ theorem encVarintAux_ne_nil (k n : Nat) : encVarintAux (k + 1) n ≠ [] := by
 
 theorem encVarint_ne_nil (n : Nat) : encVarint n ≠ [] := encVarintAux_ne_nil 9 n
 
+theorem shorter_iff (b : Bytes) (l : Nat) : shorter b l = true ↔ b.length < l := by
+  cases l with
+  | zero => simp [shorter]
+  | succ l =>
+    simp only [shorter, List.isEmpty_iff, List.drop_eq_nil_iff]
+    omega
+
+theorem shorter_false (b : Bytes) (l : Nat) (h : l ≤ b.length) : shorter b l = false := by
+  cases hs : shorter b l with
+  | false => rfl
+  | true => have := (shorter_iff b l).mp hs; omega
+
+theorem shorter_true (b : Bytes) (l : Nat) (h : b.length < l) : shorter b l = true := (shorter_iff b l).mpr h
+
 /-! ## fields -/
 
 /-- a field the encoder can emit and the decoder reads back -/
@@ -83,25 +97,25 @@ theorem decField_enc (f : Field) (rest : Bytes) (h : f.WF) :
     simp only [WireVal.WF] at h3
     have e : (num * 8 + 1) / 8 = num := by omega
     have e' : (num * 8 + 1) % 8 = 1 := by omega
-    have hl : ¬ (b ++ rest).length < 8 := by simp only [List.length_append]; omega
+    have hl : shorter (b ++ rest) 8 = false := shorter_false _ _ (by simp only [List.length_append]; omega)
     simp only [encField, decField, List.append_assoc, decTag num 1 _ h2 (by decide), e, e', hl,
-      if_neg hnum, if_false]
+      if_neg hnum, if_false, Bool.false_eq_true]
     rw [← h3, List.take_left, List.drop_left]
   | len b =>
     simp only [WireVal.WF] at h3
     have e : (num * 8 + 2) / 8 = num := by omega
     have e' : (num * 8 + 2) % 8 = 2 := by omega
-    have hl : ¬ (b ++ rest).length < b.length := by simp only [List.length_append]; omega
+    have hl : shorter (b ++ rest) b.length = false := shorter_false _ _ (by simp only [List.length_append]; omega)
     simp only [encField, decField, List.append_assoc, decTag num 2 _ h2 (by decide), e, e',
-      decVarint_enc b.length (b ++ rest) h3, hl, if_neg hnum, if_false]
+      decVarint_enc b.length (b ++ rest) h3, hl, if_neg hnum, if_false, Bool.false_eq_true]
     rw [List.take_left, List.drop_left]
   | i32 b =>
     simp only [WireVal.WF] at h3
     have e : (num * 8 + 5) / 8 = num := by omega
     have e' : (num * 8 + 5) % 8 = 5 := by omega
-    have hl : ¬ (b ++ rest).length < 4 := by simp only [List.length_append]; omega
+    have hl : shorter (b ++ rest) 4 = false := shorter_false _ _ (by simp only [List.length_append]; omega)
     simp only [encField, decField, List.append_assoc, decTag num 5 _ h2 (by decide), e, e', hl,
-      if_neg hnum, if_false]
+      if_neg hnum, if_false, Bool.false_eq_true]
     rw [← h3, List.take_left, List.drop_left]
   | group b => exact absurd h3 (by simp [WireVal.WF])
 
@@ -174,12 +188,12 @@ theorem preflightAux_succ (k : Nat) (b : Bytes) (hb : b ≠ []) :
           | 0 => (match decVarint r with
             | some (_, r') => preflightAux k r'
             | none => false)
-          | 5 => if r.length < 4 then false else preflightAux k (r.drop 4)
-          | 1 => if r.length < 8 then false else preflightAux k (r.drop 8)
+          | 5 => if shorter r 4 then false else preflightAux k (r.drop 4)
+          | 1 => if shorter r 8 then false else preflightAux k (r.drop 8)
           | 2 => (match decVarint r with
             | some (l, r') =>
               if protoMaxFieldBytes < l then false
-              else if r'.length < l then false
+              else if shorter r' l then false
               else preflightAux k (r'.drop l)
             | none => false)
           | _ => false := by
@@ -212,27 +226,27 @@ theorem preflight_step (f : Field) (rest : Bytes) (k : Nat) (h : f.PreOK) :
     simp only [WireVal.WF] at h3
     have e : (num * 8 + 1) / 8 = num := by omega
     have e' : (num * 8 + 1) % 8 = 1 := by omega
-    have hl : ¬ (b ++ rest).length < 8 := by simp only [List.length_append]; omega
+    have hl : shorter (b ++ rest) 8 = false := shorter_false _ _ (by simp only [List.length_append]; omega)
     simp only [encField, List.append_assoc, decTag num 1 _ h2 (by decide), e, e', hl,
-      if_neg hnum, if_false]
+      if_neg hnum, if_false, Bool.false_eq_true]
     rw [← h3, List.drop_left]
   | len b =>
     simp only [WireVal.WF] at h3
     simp only at h4
     have e : (num * 8 + 2) / 8 = num := by omega
     have e' : (num * 8 + 2) % 8 = 2 := by omega
-    have hl : ¬ (b ++ rest).length < b.length := by simp only [List.length_append]; omega
+    have hl : shorter (b ++ rest) b.length = false := shorter_false _ _ (by simp only [List.length_append]; omega)
     have hs : ¬ protoMaxFieldBytes < b.length := by omega
     simp only [encField, List.append_assoc, decTag num 2 _ h2 (by decide), e, e',
-      decVarint_enc b.length (b ++ rest) h3, hl, hs, if_neg hnum, if_false]
+      decVarint_enc b.length (b ++ rest) h3, hl, hs, if_neg hnum, if_false, Bool.false_eq_true]
     rw [List.drop_left]
   | i32 b =>
     simp only [WireVal.WF] at h3
     have e : (num * 8 + 5) / 8 = num := by omega
     have e' : (num * 8 + 5) % 8 = 5 := by omega
-    have hl : ¬ (b ++ rest).length < 4 := by simp only [List.length_append]; omega
+    have hl : shorter (b ++ rest) 4 = false := shorter_false _ _ (by simp only [List.length_append]; omega)
     simp only [encField, List.append_assoc, decTag num 5 _ h2 (by decide), e, e', hl,
-      if_neg hnum, if_false]
+      if_neg hnum, if_false, Bool.false_eq_true]
     rw [← h3, List.drop_left]
   | group b => exact absurd h3 (by simp [WireVal.WF])
 
